@@ -1032,7 +1032,7 @@ class TT():
                                      self.cores[i], tn.conj(self.cores[i]))
                 norm = tn.squeeze(norm)
             if squared:
-                return norm
+                return tn.real(norm)
             else:
                 return tn.sqrt(tn.abs(norm))
 
